@@ -74,9 +74,31 @@ def spellings(case, k):
     return []
 
 
+def primes(case):
+    """The same number tokens in the OTHER functional notations: what a colour string denotes does not depend on what was parsed
+    before it (a cache keyed by the numbers alone would)."""
+    mode, arg = case["mode"], case["arg"]
+    if mode not in ("rgb", "rgbp", "hsl"):
+        return []
+    a, b, c, o = arg
+    t = [num(rat(x)) for x in (a, b, c)]
+    al = (", " + num(rat(o))) if o else ""
+    forms = {"rgb": "rgb%s(%s, %s, %s%s)" % ("a" if o else "", t[0], t[1], t[2], al),
+             "rgbp": "rgb%s(%s%%, %s%%, %s%%%s)" % ("a" if o else "", t[0], t[1], t[2], al),
+             "hsl": "hsl%s(%s, %s%%, %s%%%s)" % ("a" if o else "", t[0], t[1], t[2], al)}
+    return [v for k, v in forms.items() if k != mode]
+
+
 def check_spelling(case):
     dis = []
     col = case["col"]
+    for s in primes(case):
+        try:
+            svg.Color(s)
+        except engine.CaseTimeout:
+            raise
+        except Exception:
+            pass
     for s in dict.fromkeys(spellings(case, case["n"])):
         try:
             c = svg.Color(s)
